@@ -4,7 +4,9 @@ import (
 	"bufio"
 	"fmt"
 	"io"
+	"os"
 	"os/exec"
+	"strconv"
 	"strings"
 	"time"
 )
@@ -36,6 +38,13 @@ type Solver struct {
 	retrying  bool
 	Retries   int
 	LastErr   string
+	// everything currently on the assertion stack, one list of lines per scope level, so
+	// that a solver process whose memory has grown can be replaced by a fresh one
+	stack     [][]string
+	seed      int
+	sinceRst  int
+	Restarts  int
+	rssLimit  int64 // kB
 }
 
 type nameKey struct {
@@ -49,6 +58,21 @@ type scopedEnt struct {
 }
 
 func NewSolver(bin string, seed int, timeoutMs int, log io.Writer) (*Solver, error) {
+	s := &Solver{timeoutMs: timeoutMs, bin: bin, seed: seed, log: log, facts: NewFacts(), scoped: map[interface{}]scopedEnt{}, stack: [][]string{nil}, rssLimit: 1500 * 1024}
+	if v := os.Getenv("VERIF_SOLVER_RSS_MB"); v != "" {
+		if n, err := strconv.Atoi(v); err == nil && n > 0 {
+			s.rssLimit = int64(n) * 1024
+		}
+	}
+	if err := s.start(); err != nil {
+		return nil, err
+	}
+	return s, nil
+}
+
+// start launches the solver process and sets its options.
+func (s *Solver) start() error {
+	bin, seed, timeoutMs := s.bin, s.seed, s.timeoutMs
 	args := []string{"-in"}
 	isCvc := strings.Contains(bin, "cvc5")
 	if isCvc {
@@ -57,31 +81,90 @@ func NewSolver(bin string, seed int, timeoutMs int, log io.Writer) (*Solver, err
 	cmd := exec.Command(bin, args...)
 	in, err := cmd.StdinPipe()
 	if err != nil {
-		return nil, err
+		return err
 	}
 	outp, err := cmd.StdoutPipe()
 	if err != nil {
-		return nil, err
+		return err
 	}
 	cmd.Stderr = cmd.Stdout
 	if err := cmd.Start(); err != nil {
-		return nil, err
+		return err
 	}
-	s := &Solver{timeoutMs: timeoutMs, bin: bin, cmd: cmd, inRaw: in, in: bufio.NewWriterSize(in, 1<<16), out: bufio.NewReaderSize(outp, 1<<20), log: log, facts: NewFacts(), scoped: map[interface{}]scopedEnt{}}
-	s.send("(set-option :produce-models true)")
+	s.cmd, s.inRaw, s.in, s.out = cmd, in, bufio.NewWriterSize(in, 1<<16), bufio.NewReaderSize(outp, 1<<20)
+	s.raw("(set-option :produce-models true)")
 	if !isCvc {
-		s.send(fmt.Sprintf("(set-option :random-seed %d)", seed))
-		s.send(fmt.Sprintf("(set-option :timeout %d)", timeoutMs))
+		s.raw(fmt.Sprintf("(set-option :random-seed %d)", seed))
+		s.raw(fmt.Sprintf("(set-option :timeout %d)", timeoutMs))
 	}
-	return s, nil
+	return nil
 }
 
-func (s *Solver) send(line string) {
+func (s *Solver) raw(line string) {
 	if s.log != nil {
 		fmt.Fprintln(s.log, line)
 	}
 	s.in.WriteString(line)
 	s.in.WriteString("\n")
+}
+
+// send passes a command to the solver and keeps the assertion stack's text.
+func (s *Solver) send(line string) {
+	switch {
+	case line == "(push 1)":
+		s.stack = append(s.stack, nil)
+	case line == "(pop 1)":
+		s.stack = s.stack[:len(s.stack)-1]
+	case strings.HasPrefix(line, "(declare-"), strings.HasPrefix(line, "(define-"), strings.HasPrefix(line, "(assert "):
+		n := len(s.stack) - 1
+		s.stack[n] = append(s.stack[n], line)
+	}
+	s.raw(line)
+}
+
+// rssKB is the resident size of the solver process.
+func (s *Solver) rssKB() int64 {
+	b, err := os.ReadFile(fmt.Sprintf("/proc/%d/statm", s.cmd.Process.Pid))
+	if err != nil {
+		return 0
+	}
+	f := strings.Fields(string(b))
+	if len(f) < 2 {
+		return 0
+	}
+	n, _ := strconv.ParseInt(f[1], 10, 64)
+	return n * int64(os.Getpagesize()) / 1024
+}
+
+// maybeRestart replaces a solver process that has grown beyond the limit (z3 4.8.12
+// does not give memory back over long push/pop sessions) by a fresh one holding the
+// same assertion stack. Called between queries only.
+func (s *Solver) maybeRestart() {
+	s.sinceRst++
+	if s.sinceRst%100 != 0 || strings.Contains(s.bin, "cvc5") {
+		return
+	}
+	if s.rssKB() < s.rssLimit {
+		return
+	}
+	s.raw("(exit)")
+	s.in.Flush()
+	s.inRaw.Close()
+	s.cmd.Process.Kill()
+	s.cmd.Wait()
+	if err := s.start(); err != nil {
+		panic(execErr{"solver restart failed: " + err.Error()})
+	}
+	for i, lvl := range s.stack {
+		if i > 0 {
+			s.raw("(push 1)")
+		}
+		for _, l := range lvl {
+			s.raw(l)
+		}
+	}
+	s.Restarts++
+	s.sinceRst = 0
 }
 
 func (s *Solver) Push() { s.send("(push 1)"); s.facts.Push(); s.depth++ }
@@ -184,6 +267,7 @@ func (s *Solver) Check(extra ...*Term) string {
 			return "unsat"
 		}
 	}
+	s.maybeRestart()
 	t0 := time.Now()
 	s.Queries++
 	if len(extra) > 0 {
